@@ -120,7 +120,7 @@ Qed.
 Definition own_of (l : tlocal) (p : pc) : option N :=
   match tl_node l with
   | Some n => Some n
-  | None => match p with C1 w | C2 w => Some w | _ => None end
+  | None => match p with C1 w | C2 w | GCool3 w | GBack w => Some w | _ => None end
   end.
 
 Definition next_own_ok (bound : N) (m' : loc -> N) (l' : tlocal) (n : N) (nx : next) : Prop :=
@@ -369,8 +369,12 @@ Qed.
 Definition inuse_eff (m m' : loc -> N) (p : pc) (l l' : tlocal) (nx : next) : Prop :=
   (m' LHead = m LHead /\ (forall k, m' (LInUse k) = m (LInUse k)) /\
    (tl_node l' = tl_node l \/ exists n r, tl_node l = Some n /\ tl_node l' = None /\ nx = NPush [C1 n] (WExit r)))
-  \/ (exists k, p = GCool3 k /\ m' LHead = m LHead /\ tl_node l' = tl_node l /\ (forall k', k' <> k -> m' (LInUse k') = m (LInUse k')) /\
-                m (LInUse k) <> NODE_USED /\ m' (LInUse k) <> NODE_USED)
+  \/ (exists k, p = GCool2 k /\ m' LHead = m LHead /\ tl_node l' = tl_node l /\ (forall k', k' <> k -> m' (LInUse k') = m (LInUse k')) /\
+                m (LInUse k) = NODE_COOLDOWN /\ m' (LInUse k) = NODE_USED /\ nx = NGoto (GCool3 k))
+  \/ (exists k, p = GCool3 k /\ m' LHead = m LHead /\ (forall k', m' (LInUse k') = m (LInUse k')) /\
+                tl_node l' = Some k /\ nx = NRet (RNode k))
+  \/ (exists k, p = GBack k /\ m' LHead = m LHead /\ tl_node l' = tl_node l /\ (forall k', k' <> k -> m' (LInUse k') = m (LInUse k')) /\
+                m' (LInUse k) = NODE_COOLDOWN /\ nx = NGoto (GClaim k))
   \/ (exists k, (p = GClaim k \/ (p = GPush k /\ m LHead = k)) /\ (forall k', k' <> k -> m' (LInUse k') = m (LInUse k')) /\
                 (p = GClaim k -> m (LInUse k) = NODE_UNUSED) /\ m' (LInUse k) = NODE_USED /\
                 tl_node l' = Some k /\ nx = NRet (RNode k) /\ (p = GClaim k -> m' LHead = m LHead) /\ (p = GPush k -> m' LHead = k + 1))
@@ -455,7 +459,9 @@ Proof.
   all: try (first
     [ solve [right; left; eexists; iu_close]
     | solve [right; right; left; eexists; iu_close]
-    | solve [right; right; right; eexists; iu_close] ]).
+    | solve [right; right; right; left; eexists; iu_close]
+    | solve [right; right; right; right; left; eexists; iu_close]
+    | solve [right; right; right; right; right; eexists; iu_close] ]).
 Qed.
 
 
